@@ -210,9 +210,12 @@ def header_faults(data, schema, rng, quick):
         out.append(("flip bit %d of schema byte %d" % (bit, pos - hs), "flip_schema_text", bytes(m)))
     # schema replaced by a proper prefix of itself / extended by one byte (length adjusted): "compared by prefix" bugs
     sb = schema.encode()
-    for cut in ([slen - 1, slen // 2] if slen > 2 else []):
+    for cut in ([0, 1, slen - 1, slen // 2] if slen > 2 else []):
         hdr = bytearray(data[:9]); R.put_uvarint(hdr, cut)
         out.append(("schema truncated to %d of %d bytes, length field adjusted" % (cut, slen), "schema_prefix", bytes(hdr) + sb[:cut] + data[hs + slen:]))
+    for variant in (b"{}", b"null", b'""'):
+        hdr = bytearray(data[:9]); R.put_uvarint(hdr, len(variant))
+        out.append(("schema replaced by %r" % (variant,), "degenerate_schema", bytes(hdr) + variant + data[hs + slen:]))
     hdr = bytearray(data[:9]); R.put_uvarint(hdr, slen + 1)
     out.append(("schema extended by one byte", "schema_extended", bytes(hdr) + sb + b" " + data[hs + slen:]))
     # the schema of a *different* protocol that is still well-formed JSON: one token of the text replaced (a primitive type,
@@ -473,6 +476,10 @@ def versioned_task(task, ybin, root):
                     pos, bit = r.randint(hs, hs + len(sb) - 1), r.randint(0, 7)
                     mm = bytearray(data); mm[pos] ^= 1 << bit
                     jobs.append((proto, "previous version %s: flip bit %d of schema byte %d" % (label, bit, pos - hs), "flip_previous_schema_text", bytes(mm), False))
+                # degenerate schema texts (nothing, one byte, the smallest JSON documents) in front of the previous version's values
+                for variant in (b"", sb[:1], b"{}", b"null", b'""'):
+                    hdr = bytearray(data[:9]); R.put_uvarint(hdr, len(variant))
+                    jobs.append((proto, "previous version %s: schema replaced by %r" % (label, variant), "degenerate_schema", bytes(hdr) + variant + data[hs + len(sb):], False))
                 tproto = twin_pkg.find(proto.name) if twin_pkg is not None else None
                 if tproto is not None and proto.name in twin_schemas and twin_schemas[proto.name] not in registered[proto.name]:
                     tvals = sw.gen_values(twin_env, ns, tproto, r.fork("tv", proto.name), finite=True, items=(1, 3))
@@ -604,7 +611,7 @@ def main():
                assumptions=["a corruption after which the header is still the reader's own header by the documented format (NDJSON line parsing to the same JSON) is benign and skipped"],
                replay_fn=replay_doc, quick_budget=140,
                fault_keys=("misdelivery_near_identical", "misdelivery_unrelated", "misdelivery_sibling_protocol", "flip_magic", "flip_version", "flip_schema_length", "subst_magic", "subst_version",
-                           "subst_schema_length", "flip_schema_text", "schema_prefix", "schema_extended", "schema_token_replaced", "flip_ndjson_header", "ndjson_version", "ndjson_header_structure",
+                           "subst_schema_length", "flip_schema_text", "schema_prefix", "degenerate_schema", "cpp_degenerate_schema", "schema_extended", "schema_token_replaced", "flip_ndjson_header", "ndjson_version", "ndjson_header_structure",
                            "cpp_misdelivery_near_previous_version", "cpp_flip_previous_schema_text", "python_previous_version"))
 
 
